@@ -7,6 +7,8 @@ colname argument x load argument x deprecated load_pos/load_vel flags -> Error |
       for every configuration; error/no error, the column set, the row count, the values (against the direct decoders
       verified by C04/C15), value independence from co-requested columns, and the metadata are compared
 """
+import contextlib
+import io
 import json
 import os
 import warnings
@@ -107,7 +109,8 @@ def run(chk):
                 desc = f'present={c["present"]} colname={c["colname"]} load={c["load"]} load_pos={c["lp"]} load_vel={c["lv"]} header={hk}'
                 tagk = ('auto' if c['colname'] == 'none' else 'named') + ('-flags' if (c['lp'] != 'unset' or c['lv'] != 'unset') else '') + ('-multi' if len(c['present']) > 1 else '')
                 try:
-                    t = read_asdf(files[(key, hk)], dtype=dt, verbose=False, **kw)
+                    with contextlib.redirect_stdout(io.StringIO()):
+                        t = read_asdf(files[(key, hk)], dtype=dt, verbose=bool((ci // 3) % 2), **kw)          # verbose only prints: nothing else may depend on it
                     err = None
                 except Exception as e:  # noqa
                     t, err = None, f'{type(e).__name__}: {e}'
@@ -135,6 +138,8 @@ def run(chk):
                         chk.violation(f'values-{exp["col"]}-{col}', f'{desc}: column {col} differs from the direct decode of the raw column (depends on co-requested columns?)', dict(cfg=c, header=hk))
                     if np.issubdtype(got.dtype, np.floating) and got.dtype != dt:
                         chk.violation(f'dtype-{exp["col"]}-{col}', f'{desc}: column {col} has dtype {got.dtype}, requested {np.dtype(dt).name}', dict(cfg=c, header=hk))
+                if hk == 'lightcone' and not np.isclose(t.meta.get('SubsampleFraction', np.nan), 0.03 + 0.07):
+                    chk.violation('meta-subsample-fraction', f'{desc} verbose={bool((ci // 3) % 2)}: table.meta["SubsampleFraction"] = {t.meta.get("SubsampleFraction")!r}; an AbacusSummit light-cone file carries A + B = 0.1', dict(cfg=c, header=hk))
                 for k, v in headers[hk].items():
                     if t.meta.get(k) != v:
                         chk.violation(f'meta-{hk}', f'{desc}: table.meta[{k!r}] = {t.meta.get(k)!r}, file header has {v!r}', dict(cfg=c, header=hk))
